@@ -610,17 +610,18 @@ def make_processors():
     class ARecProc(AsyncEventProcessor):
         """Async recorder that turns every emission into 0..n extra suspension points."""
 
-        def __init__(self, tag="ap", rng=None, max_yields=3):
+        def __init__(self, tag="ap", rng=None, max_yields=3, min_yields=0):
             self.tag = tag
             self.rng = rng
             self.max_yields = max_yields
+            self.min_yields = min_yields
 
         def on_event(self, event):
             CUR.add("ev", self.tag, event)
 
         async def on_event_async(self, event):
             if self.rng is not None:
-                for _ in range(self.rng.randrange(self.max_yields + 1)):
+                for _ in range(self.rng.randrange(self.min_yields, self.max_yields + 1)):
                     await asyncio.sleep(0)
             CUR.add("ev", self.tag, event)
 
